@@ -264,16 +264,25 @@ size_t varintRLEGetRunCount(const uint8_t *src, size_t encodedSize) {
     size_t runs = 0;
 
     while (ptr < end) {
-        size_t runLen;
+        /* Read [length][value] without touching bytes at or beyond 'end' */
+        uint64_t runLen;
         uint64_t value;
-        size_t consumed = varintRLEDecodeRun(ptr, &runLen, &value);
+        size_t avail = (size_t)(end - ptr);
+        varintWidth lenWidth =
+            varintTaggedGet(ptr, avail > 9 ? 9 : (int32_t)avail, &runLen);
+        if (lenWidth == 0 || runLen == 0) {
+            break; /* Truncated run or end marker */
+        }
 
-        if (runLen == 0 || consumed == 0) {
-            break;
+        avail -= lenWidth;
+        varintWidth valueWidth = varintTaggedGet(
+            ptr + lenWidth, avail > 9 ? 9 : (int32_t)avail, &value);
+        if (valueWidth == 0) {
+            break; /* Truncated run */
         }
 
         runs++;
-        ptr += consumed;
+        ptr += lenWidth + valueWidth;
     }
 
     return runs;
